@@ -165,14 +165,23 @@ func c12Stage(g *Gen, form int) *LNode {
 		return LO("$merge", LO("into", LO("db", g.ns("db", g.o.DB), "coll", g.auxColl()), "on", LS("_id").DC()))
 	case 8:
 		return LO("$out", g.auxColl())
-	default:
+	case 9:
 		return LO("$out", LO("db", g.ns("db", g.o.DB), "coll", g.auxColl()))
+	case 10:
+		// a time-series target (MongoDB 7.0.3+): members that are not strings next to the names
+		return LO("$out", LO("db", g.ns("db", g.o.DB), "coll", g.auxColl(), "timeseries", LO("timeField", LS("ts").DC(), "metaField", LS("meta").DC(), "bucketMaxSpanSeconds", LN("3600").DC())))
+	case 11:
+		return LO("$lookup", LO("from", LO("db", g.ns("db", g.o.DB), "coll", g.auxColl()), "localField", LS("a").DC(), "foreignField", LS("b").DC(), "as", LS("j").DC()))
+	case 12:
+		return LO("$merge", LO("into", LO("db", g.ns("db", g.o.DB), "coll", g.auxColl()), "on", LA(LS("_id").DC(), LS("k").DC()), "let", LO("v", g.sec()), "whenMatched", LA(LO("$set", LO(g.Fn(), g.sec()))), "whenNotMatched", LS("insert").DC()))
+	default:
+		return LO("$out", LO("coll", g.auxColl(), "db", g.ns("db", g.o.DB)))
 	}
 }
 
-const c12Forms = 10
+const c12Forms = 14
 
-var c12FormNames = []string{"$lookup(localField)", "$lookup(pipeline)", "$graphLookup", "$unionWith(string)", "$unionWith(doc)", "$merge(string)", "$merge(into string)", "$merge(into doc)", "$out(string)", "$out(doc)"}
+var c12FormNames = []string{"$lookup(localField)", "$lookup(pipeline)", "$graphLookup", "$unionWith(string)", "$unionWith(doc)", "$merge(string)", "$merge(into string)", "$merge(into doc)", "$out(string)", "$out(doc)", "$out(doc+timeseries)", "$lookup(from doc)", "$merge(into doc + let + pipeline)", "$out(doc, coll first)"}
 
 // c12GenStageCase: an aggregate line whose pipeline holds one namespace-bearing stage at a nesting
 // depth 0..3 under $facet / $lookup.pipeline / $unionWith.pipeline, in every container and gate.
@@ -326,11 +335,31 @@ func c12Run(c *Ctx) {
 		})
 		// (3) other components that carry attr.ns
 		if c.Shard == 0 {
-			for _, comp := range []string{"NETWORK", "STORAGE", "INDEX", "SHARDING"} {
+			for ci, comp := range []string{"NETWORK", "STORAGE", "INDEX", "SHARDING", "COMMAND", "COMMAND", "COMMAND", "QUERY", "WRITE", "COMMAND"} {
 				g := &Gen{o: o}
 				nsNode := g.ns("dbcoll", ns.db+"."+ns.coll)
 				root := LO("t", LO("$date", LS("2024-05-01T10:00:00.123+00:00")), "s", LS("I"), "c", LS(comp), "id", LN("20320"), "ctx", LS("conn3"), "msg", LS("createCollection"),
 					"attr", LO("ns", nsNode, "uuidDisposition", LS("generated"), "options", LO()))
+				if ci >= 4 {
+					// command-class lines whose attr.command is not a document (a command name, null, a number, an
+					// array, nothing at all): attr.ns is a namespace all the same
+					root.Get("msg").Str = "Slow query"
+					attr := root.Get("attr")
+					switch ci {
+					case 4:
+						attr.Add("command", LS("find"))
+					case 5:
+						attr.Add("command", LNul())
+					case 6:
+						attr.Add("command", LN("7"))
+					case 7:
+						attr.Add("command", LA(LS("x")))
+					case 8:
+						attr.Add("cmd", LS("update"))
+					default:
+						attr.Add("originatingCommand", LNul())
+					}
+				}
 				resolveLabels(root, false, true)
 				sc := &sweepCase{C: &Case{Root: root, Cmd: root, NSNodes: g.nsNodes, SlotName: comp + " line with attr.ns"}, Line: root.JSON(), Layer: "other-component"}
 				c.Distinct(sc.Line)
